@@ -8,7 +8,7 @@ namespace Entrait
 theorem generateParams_impl {dyn : Bool} {deps : FnDeps} {a : List Attr} {pt : Pat} {ty : Ty} {rest : List FnArg}
     {itrail : Bool} {ins : List FnArg} {tr : Bool} (hne : deps ≠ .noDeps)
     (h : generateParams (if dyn then .dynamicImpl else .staticImpl) deps (.typed a pt ty :: rest) itrail = .ok (ins, tr)) :
-    (dyn = false ∧ ins = implReceiverArg :: rest) ∨
+    (dyn = false ∧ ins = implReceiverWith (refOf ty).join :: rest) ∨
     (dyn = true ∧ ins = .recv [] (refOf ty) false none :: implReceiverArg :: rest) := by
   unfold generateParams rewriteFirst insertImplRecv at h
   cases dyn
@@ -37,9 +37,19 @@ structure ImplModeSpec (dyn : Bool) (sig : Sig) (tf : TraitFn) : Prop where
   deps : tf.deps ≠ .noDeps
   /-- `__impl` (after `&self` for dynamic dispatch), then the renamed user parameters -/
   typed : typedArgs tf.sig.inputs =
-    fixParams sig.ident (implReceiverArg :: (typedArgs (sig.inputs.drop 1)).map FnArg.stripAttrs)
-  head : (dyn = false ∧ tf.sig.inputs.head? = (fixParams sig.ident (implReceiverArg :: (sig.inputs.drop 1).map FnArg.stripAttrs)).head?) ∨
+    fixParams sig.ident (implRecvOf dyn sig :: (typedArgs (sig.inputs.drop 1)).map FnArg.stripAttrs)
+  head : (dyn = false ∧ tf.sig.inputs.head? = (fixParams sig.ident (implRecvOf false sig :: (sig.inputs.drop 1).map FnArg.stripAttrs)).head?) ∨
          (dyn = true ∧ tf.sig.inputs.head? = expectedReceiver false sig)
+
+theorem implRecvOf_static {sig : Sig} {a : List Attr} {pt : Pat} {ty : Ty} {rest : List FnArg}
+    (hin : sig.inputs = .typed a pt ty :: rest) : implRecvOf false sig = implReceiverWith (refOf ty).join := by
+  simp only [implRecvOf, Sig.depRefLifetime, hin, Bool.false_eq_true, if_false]
+  cases ty <;> rfl
+
+theorem implRecvOf_dynamic (sig : Sig) : implRecvOf true sig = implReceiverWith none := rfl
+
+theorem typedArgs_cons_implRecv (lt : Option String) (xs : List FnArg) :
+    typedArgs (implReceiverWith lt :: xs) = implReceiverWith lt :: typedArgs xs := rfl
 
 theorem implModeSpec {dyn : Bool} {opts : Opts} {sig : Sig} {tg tg' : TraitGenerics} {tf : TraitFn}
     (hn : opts.noDepsValue = false)
@@ -52,12 +62,12 @@ theorem implModeSpec {dyn : Bool} {opts : Opts} {sig : Sig} {tg tg' : TraitGener
   have hdrop : (sig.inputs.drop 1).map FnArg.stripAttrs = rest.map FnArg.stripAttrs := by rw [hin]; simp
   rcases generateParams_impl hne hg with ⟨rfl, rfl⟩ | ⟨rfl, rfl⟩
   · refine ⟨rfl, rfl, rfl, rfl, rfl, hne, ?_, Or.inl ⟨rfl, ?_⟩⟩
-    · simp only [typedArgs_fixParams, implReceiverArg, typedArgs_cons_typed, hin, List.drop_succ_cons, List.drop_zero,
-        typedArgs_map_strip]
-    · simp [hin]
+    · simp only [typedArgs_fixParams, implRecvOf_static hin, typedArgs_cons_implRecv, hin, List.drop_succ_cons,
+        List.drop_zero, typedArgs_map_strip]
+    · simp [hin, implRecvOf_static hin]
   · refine ⟨rfl, rfl, rfl, rfl, rfl, hne, ?_, Or.inr ⟨rfl, ?_⟩⟩
-    · simp only [fixParams_cons_recv, typedArgs_cons_recv, typedArgs_fixParams, implReceiverArg, typedArgs_cons_typed,
-        hin, List.drop_succ_cons, List.drop_zero, typedArgs_map_strip]
+    · simp only [fixParams_cons_recv, typedArgs_cons_recv, typedArgs_fixParams, implRecvOf_dynamic, implReceiverArg,
+        typedArgs_cons_implRecv, hin, List.drop_succ_cons, List.drop_zero, typedArgs_map_strip]
     · simp only [fixParams_cons_recv, List.head?_cons, expectedReceiver, Bool.false_eq_true, if_false, hin]
       cases ty <;> rfl
 
